@@ -2,6 +2,7 @@
 #include "error_code.h" // for SocketError
 
 #include <cassert> // for assert
+#include <limits> // for std::numeric_limits
 
 namespace sockpuppet {
 
@@ -28,9 +29,13 @@ int DoPoll(pollfd pfd, int timeoutMs)
 int ToMsec(Duration timeout)
 {
   using namespace std::chrono;
-  using MilliSeconds = duration<int, std::milli>;
 
-  return duration_cast<MilliSeconds>(timeout).count();
+  // narrowing must neither turn a huge timeout negative (i.e. unlimited) nor vice versa
+  auto msec = duration_cast<milliseconds>(timeout).count();
+  if(msec > std::numeric_limits<int>::max()) {
+    return std::numeric_limits<int>::max();
+  }
+  return (msec < 0 ? -1 : static_cast<int>(msec));
 }
 
 bool Wait(SOCKET fd, short events, Duration timeout)
